@@ -794,7 +794,7 @@ def _split_method_chain(expr):
     return head, calls
 
 
-_ITER_METHODS = {'iter', 'into_iter', 'flat_map', 'map', 'copied', 'chain', 'cloned', 'filter', 'enumerate'}
+_ITER_METHODS = {'iter', 'into_iter', 'flat_map', 'map', 'copied', 'chain', 'cloned', 'filter', 'enumerate', 'zip'}
 
 
 def _is_iter_expr(expr):
@@ -827,6 +827,8 @@ class _Gen:
 
 
 def _closure(arg):
+    if re.match(r'\s*(Vec|<\[_\]>|\[_\])::len\s*$', arg):
+        arg = '|x_| x_.len()'                     # a path to a method used as the closure
     m = re.match(r'\s*\|([^|]*)\|\s*(.*)$', arg, flags=re.S)
     if not m:
         raise ExtractError(f'closure expected in iterator pipeline: {arg[:40]}')
@@ -917,6 +919,22 @@ def _compile_seg(expr, sink, g):
             return (f'{{ let mut c_{i}: usize = 0; for e_{i} in it_{i}: {head} {{ let en_{i} = (c_{i}, e_{i}); c_{i} = c_{i} + 1; '
                     f'{consume(f"en_{i}", "val", adaptors[1:])} }} }}')
         return f'for e_{i} in it_{i}: {head} {{ {consume(f"e_{i}", "val", adaptors)} }}'
+    if src == 'iter' and adaptors and adaptors[0][0] == 'zip':
+        # `A.iter().zip(B.iter())`: index loop over the common prefix; a following closure with a pair pattern binds its halves to &A[i] / &B[i]
+        mz = re.match(r'\s*&?([\w.\[\]]+?)(\s*\.\s*iter\(\))?\s*$', adaptors[0][1])
+        if not mz:
+            raise ExtractError('zip argument is outside the pipeline compiler: ' + adaptors[0][1][:40])
+        other = mz.group(1)
+        rest = adaptors[1:]
+        ea, eb = f'(&{head}[{i}])', f'(&{other}[{i}])'
+        pre = f'let n_{i} = if {head}.len() <= {other}.len() {{ {head}.len() }} else {{ {other}.len() }}; for {i} in 0..n_{i} {{ '
+        if rest and rest[0][0] in ('map', 'filter', 'flat_map'):
+            pat, body = _closure(rest[0][1])
+            halves = _split_top_commas(pat[1:-1]) if pat.startswith('(') and pat.endswith(')') else []
+            if len(halves) == 2 and rest[0][0] == 'map':
+                binds = f'let {halves[0]} = {ea}; let {halves[1]} = {eb};'
+                return '{ ' + pre + '{ ' + binds + ' ' + consume(f'({body})', 'val', rest[1:]) + ' } } }'
+        return '{ ' + pre + f'let zp_{i} = ({ea}, {eb}); ' + consume(f'zp_{i}', 'val', rest) + ' } }'
     if src == 'iter' and adaptors and adaptors[0][0] == 'enumerate':
         return f'for {i} in 0..{head}.len() {{ let en_{i} = ({i}, &{head}[{i}]); {consume(f"en_{i}", "val", adaptors[1:])} }}'
     if src == 'iter':
@@ -947,7 +965,7 @@ def uniter_collect(f):
                     break
                 i -= 1
             recv = f.body[i + 1:j]
-            if re.search(r'\.\s*(flat_map|chain|filter)\s*\(', recv) and _is_iter_expr(recv.strip()):
+            if re.search(r'\.\s*(flat_map|chain|filter|zip)\s*\(', recv) and _is_iter_expr(recv.strip()):
                 m = (i + 1, mm.end(), recv)
                 break
         if not m:
@@ -1482,4 +1500,54 @@ def unfind_let_else(f):
         n += 1
     if n:
         f.rewrites.append(('R6', f'{n}x `let Some(p) = v.iter().find(|e| COND) else {{..}};` -> first-match index loop (COND verbatim)', ''))
+    return f
+
+
+def uniter_sum(f):
+    """R6: `let NAME: usize = PIPELINE.sum();` / `.sum::<usize>()` -> loop adding the items to an accumulator (closure bodies verbatim)"""
+    n = 0
+    g = _Gen()
+    while True:
+        m = re.search(r'let (\w+)(?:: usize)? = ([^;]*?)\s*\.\s*sum(?:::<usize>)?\(\)\s*;', f.body, flags=re.S)
+        if not m or not _is_iter_expr(m.group(2).strip()):
+            break
+        acc = f's{n}_'
+
+        def sink(elem, kind, acc=acc):
+            if kind == 'vec':
+                raise ExtractError('sum over a vector-valued pipeline item')
+            return f'{acc} = {acc} + {("*" + elem) if kind == "ref" else elem};'
+        code = _compile_iter(m.group(2).strip(), sink, g, None)
+        f.body = f.body[:m.start()] + f'let {m.group(1)}: usize = {{ let mut {acc}: usize = 0; {code} {acc} }};' + f.body[m.end():]
+        n += 1
+    if n:
+        f.rewrites.append(('R6', f'{n} iterator pipeline(s) `..sum()` compiled to accumulating loops (closure bodies verbatim)', ''))
+    return f
+
+
+def unfor_zip_pairs(f):
+    """R5: `for (P1, P2) in A.iter().zip(B.iter()) {` -> `let n_zK_ = min(A.len(), B.len()); for zK_ in 0..n_zK_ { let P1 = &A[zK_]; let P2 = &B[zK_];`
+    (a pattern `&x` binds a copy `A[zK_]`); loops are numbered in source order so nested ones do not clash"""
+    n = 0
+    while True:
+        m = re.search(r'for \(', f.body)
+        found = None
+        for m in re.finditer(r'for (\()', f.body):
+            c = match_brace(f.body, m.start(1))
+            mz = re.match(r'\s+in\s+([\w.\[\]]+?)\s*\.\s*iter\(\)\s*\.\s*zip\(\s*&?([\w.\[\]]+?)(\s*\.\s*iter\(\))?\s*\)\s*\{', f.body[c + 1:])
+            halves = _split_top_commas(f.body[m.start(1) + 1:c])
+            if mz and len(halves) == 2:
+                found = (m, c, mz, halves)
+                break
+        if not found:
+            break
+        m, c, mz, (p1, p2) = found
+        a, b = mz.group(1), mz.group(2)
+        k = f'z{n}_'
+        b1 = f'let {p1[1:].strip()} = {a}[{k}];' if p1.startswith('&') else f'let {p1} = &{a}[{k}];'
+        b2 = f'let {p2[1:].strip()} = {b}[{k}];' if p2.startswith('&') else f'let {p2} = &{b}[{k}];'
+        f.body = f.body[:m.start()] + f'let n_{k} = if {a}.len() <= {b}.len() {{ {a}.len() }} else {{ {b}.len() }}; for {k} in 0..n_{k} {{ {b1} {b2}' + f.body[c + 1 + mz.end():]
+        n += 1
+    if n:
+        f.rewrites.append(('R5', f'{n}x `for (P1, P2) in A.iter().zip(B.iter())` -> index loop over the common prefix', ''))
     return f
